@@ -117,7 +117,7 @@ def header_bytes(H: dict) -> bytes:
             if any(ef):
                 v = bitvec(ef)
                 o += b"\x0f" + num(len(v)) + v
-        nm = b"\x00" + b"".join(f["name"].encode("utf-16-le") + b"\x00\x00" for f in files)
+        nm = b"\x00" + b"".join(f["name"].encode("utf-16-le", "surrogatepass") + b"\x00\x00" for f in files)
         o += b"\x11" + num(len(nm)) + nm
         if any(f.get("attr") is not None for f in files):
             d = [f.get("attr") is not None for f in files]
